@@ -49,7 +49,7 @@ Record otab := mkOT {
   ot_tg : list (nat * Q * Q * (Q * Q));          (* (d_id, min, max)      -> fmin_slsqp (loc, scale) *)
   ot_tolist : list (nat * list Q);               (* d_id                  -> X.tolist() *)
   ot_resample : list (nat * nat * nat * list Q); (* (d_id, n, |global draws so far|) -> resample(n) *)
-  ot_select : list (nat * option nat);           (* d_id of the selection sample -> index of the winner *)
+  ot_select : list (nat * nat * option nat);     (* (d_id of the selection sample, number of candidates) -> index of the winner *)
   ot_choice : list (nat * nat * nat * data);     (* (d_id, k, |global draws so far|) -> np.random.choice *)
   ot_corr : list (nat * list Q * list (list Q)); (* (t_id, fingerprint of the columns' cdf behaviours) -> correlation matrix *)
   ot_frank : list (Q * result jv)                (* tau                   -> Frank theta (or the exception) *)
@@ -109,7 +109,7 @@ Section Tab.
     end.
 
   Definition t_select (X : data) (cands : list cand) : option nat :=
-    match find (fun e => (fst e =? d_id X)%nat) (ot_select t) with
+    match find (fun e => (fst (fst e) =? d_id X)%nat && (snd (fst e) =? List.length cands)%nat) (ot_select t) with
     | Some e => snd e
     | None => None
     end.
